@@ -3,6 +3,7 @@ import ModbusModel.Lemmas.Framed
 import ModbusModel.Props.C01
 import ModbusModel.Lemmas.ServeEnd
 import ModbusModel.Lemmas.ServeFault
+import ModbusModel.Lemmas.ServeBad
 /-
   C14 – A server connection ends cleanly or with one error report; the server lives on.
 -/
@@ -218,6 +219,192 @@ theorem unwritable_reply_ends_connection (k : Kind) (svc : Service) (fuel idx : 
     ∧ ∃ effs, (processLoop k svc (fuel + 1) idx f t tr).2.1 = tr ++ [.call hdr.unit req] ++ effectsToEvents effs
         ∧ writtenBytes effs = frame.take (Modbus.accepted ps) :=
   loop_reply_write_fault k svc fuel idx f t tr hdr req fd r evs rsp frame ps fault kf rest h hs he hw hk ht hpos hacc
+
+/-! ### malformed input: an invalid header, an undecodable request -/
+
+theorem aduDecode_short (p : Bytes) (h : p.length < 7) : aduDecode p = (.ok none, p) := by
+  rcases p with _ | ⟨a, _ | ⟨b, _ | ⟨c, _ | ⟨d, _ | ⟨e, _ | ⟨f, _ | ⟨g, r⟩⟩⟩⟩⟩⟩⟩ <;>
+    first | rfl | (simp at h; omega)
+
+/-- **invalid header, length field 0** (TCP): rejected as soon as the seven header bytes are there -/
+theorem malformed_zero_length_tcp (t0 t1 p0 p1 u : UInt8) :
+    Poison (serverDecoder .tcp) [t0, t1, p0, p1, 0, 0, u] .invalidData where
+  ne := by simp
+  waits := by
+    intro s p q hpq hq
+    have hl : p.length < 7 := by
+      have h1 := congrArg List.length hpq
+      have h2 : q.length ≠ 0 := fun h => hq (List.length_eq_zero_iff.mp h)
+      simp only [List.length_append, List.length_cons, List.length_nil] at h1
+      omega
+    exact ⟨s, by simp [serverDecoder, tcpServerDecode, aduDecode_short p hl, Res.map]⟩
+  errs := by
+    intro s x
+    refine ⟨s, t0 :: t1 :: p0 :: p1 :: 0 :: 0 :: u :: x, ?_⟩
+    simp only [serverDecoder, tcpServerDecode, List.cons_append, List.nil_append, aduDecode_zero_length]
+    simp [Res.map]
+
+/-- **invalid header, protocol identifier ≠ 0** (TCP): rejected once the frame the length field
+    announces is complete (the codec checks the identifier only then), never delivered -/
+theorem malformed_protocol_id_tcp (t0 t1 p0 p1 l0 l1 u : UInt8) (body : Bytes)
+    (hl : (rd16 l0 l1).toNat ≠ 0) (hb : body.length = (rd16 l0 l1).toNat - 1) (hp : rd16 p0 p1 ≠ 0) :
+    Poison (serverDecoder .tcp) (t0 :: t1 :: p0 :: p1 :: l0 :: l1 :: u :: body) .invalidData where
+  ne := by simp
+  waits := by
+    intro s p q hpq hq
+    refine ⟨s, ?_⟩
+    have hql : q.length ≠ 0 := fun h => hq (List.length_eq_zero_iff.mp h)
+    by_cases h7 : p.length < 7
+    · simp [serverDecoder, tcpServerDecode, aduDecode_short p h7, Res.map]
+    · -- the header is complete, the body is not
+      rcases p with _ | ⟨a, _ | ⟨b, _ | ⟨c, _ | ⟨d, _ | ⟨e, _ | ⟨f, _ | ⟨g, r⟩⟩⟩⟩⟩⟩⟩ <;>
+        try (simp at h7; done)
+      simp only [List.cons_append, List.cons.injEq] at hpq
+      obtain ⟨rfl, rfl, rfl, rfl, rfl, rfl, rfl, hr⟩ := hpq
+      have hrl : r.length < (rd16 e f).toNat - 1 := by
+        have := congrArg List.length hr
+        simp at this; omega
+      simp [serverDecoder, tcpServerDecode, aduDecode, hl, hrl, Res.map]
+  errs := by
+    intro s x
+    refine ⟨s, body ++ x, ?_⟩
+    have h := aduDecode_bad_protocol t0 t1 p0 p1 l0 l1 u (body ++ x) hl (by simp; omega) hp
+    simp only [serverDecoder, tcpServerDecode, List.cons_append, h]
+    simp [Res.map]
+
+/-- **undecodable request** (TCP): a complete, validly framed MBAP frame whose PDU the request
+    decoder rejects with `k` -/
+theorem malformed_undecodable_tcp (hdr : TcpHeader) (pdu : Bytes) (k : ErrKind)
+    (hl : pdu.length < 65535) (hd : decodeRequest pdu = .err k) :
+    Poison (serverDecoder .tcp) (tcpFrame hdr pdu) k where
+  ne := by simp [tcpFrame, be16]
+  waits := by
+    intro s p q hpq hq
+    refine ⟨s, ?_⟩
+    have hne : p ≠ tcpFrame hdr pdu := by
+      intro e
+      have := congrArg List.length hpq
+      rw [← e] at this
+      simp at this
+      exact hq this
+    simp [serverDecoder, tcpServerDecode, aduDecode_prefix_waits hdr pdu p hl ⟨q, hpq⟩ hne, Res.map]
+  errs := by
+    intro s x
+    refine ⟨s, x, ?_⟩
+    simp [serverDecoder, tcpServerDecode, aduDecode_complete hdr pdu x hl, hd, Res.map]
+
+/-- **undecodable request** (RTU): a CRC-valid frame of the length the function code announces,
+    whose PDU the request decoder rejects with `k` -/
+theorem malformed_undecodable_rtu (slave : UInt8) (pdu : Bytes) (k : ErrKind)
+    (hlen : ∀ x, requestPduLen (rtuFrame slave pdu ++ x) = .ok (some pdu.length))
+    (hd : decodeRequest pdu = .err k) :
+    Poison (serverDecoder .rtu) (rtuFrame slave pdu) k where
+  ne := by simp [rtuFrame]
+  waits := by
+    intro fd p q hpq hq
+    refine ⟨fd, ?_⟩
+    have hne : p ≠ rtuFrame slave pdu := by
+      intro e
+      have := congrArg List.length hpq
+      rw [← e] at this
+      simp at this
+      exact hq this
+    have h0 := hlen []
+    simp only [List.append_nil] at h0
+    have h1 := rtuDecode_waits requestPduLen requestPduLen_stable fd slave pdu p h0 ⟨q, hpq⟩ hne
+    simp only [serverDecoder, rtuServerDecode]
+    rw [h1]
+    simp [Res.map]
+  errs := by
+    intro fd x
+    refine ⟨{ dropped := [] }, x, ?_⟩
+    simp [serverDecoder, rtuServerDecode, rtuDecode_complete requestPduLen fd slave pdu x (hlen x), hd, Res.map]
+
+/-- **a TCP connection that turns malformed**: after `reqs` complete well-formed requests the
+    stream carries bytes the codec rejects (`bad`: any of the classes above) and then anything
+    at all (`x`, further reads, errors, the end of the stream) – the whole stream cut into reads
+    in any way.  The task ends with that one error; exactly the requests before the malformed
+    bytes were served – each once, in order, replies under their own headers – and nothing
+    after that point. -/
+theorem connection_malformed_tcp (svc : Service) (reqs : List (TcpHeader × Request)) (bad x : Bytes)
+    (kk : ErrKind) (P : Poison (serverDecoder .tcp) bad kk)
+    (t : Transport) (feeds extra : List ReadEv)
+    (hs : ∀ p ∈ reqs, requestPduSizeRaw p.2 ≤ 253) (hc : ∀ p ∈ reqs, p.2.canonical)
+    (hw : t.writes = []) (hf : t.flushes = [])
+    (hreads : t.reads = feeds ++ extra) (hfeed : ∀ e ∈ feeds, e.isFeed = true)
+    (hdata : dataOf feeds = (reqs.map fun p => tcpFrame p.1 (encodeRequestPdu p.2)).flatten ++ (bad ++ x))
+    (henc : Encodable .tcp svc 0 (reqs.map fun p => ({ tid := p.1.transactionId, unit := p.1.unitId }, p.2))) :
+    (process .tcp svc t).2.1
+        = expectedTrace .tcp svc 0 (reqs.map fun p => ({ tid := p.1.transactionId, unit := p.1.unitId }, p.2))
+    ∧ (process .tcp svc t).1 = .failed kk := by
+  have hitems : (reqs.map fun p => tcpFrame p.1 (encodeRequestPdu p.2)).map tcpServerFraming.item
+      = reqs.map fun p => ({ tid := p.1.transactionId, unit := p.1.unitId }, p.2) := by
+    rw [List.map_map]
+    apply List.map_congr_left
+    intro p hp
+    have h3 := server_decodes_request_tcp p.1 p.2 [] (hs p hp) (hc p hp)
+    simp only [List.append_nil] at h3
+    simp [tcpServerFraming, Framing.ofStrict, h3]
+  have hv : ∀ y ∈ (reqs.map fun p => tcpFrame p.1 (encodeRequestPdu p.2)), tcpServerFraming.Valid y := by
+    intro y hy
+    obtain ⟨p, hp, rfl⟩ := List.mem_map.mp hy
+    exact ⟨p.1, p.2, hs p hp, hc p hp, rfl⟩
+  have hne : ∀ y ∈ (reqs.map fun p => tcpFrame p.1 (encodeRequestPdu p.2)), y ≠ [] := by
+    intro y hy
+    obtain ⟨p, _, rfl⟩ := List.mem_map.mp hy
+    simp [tcpFrame, be16]
+  have henc' : Encodable .tcp svc 0 ((reqs.map fun p => tcpFrame p.1 (encodeRequestPdu p.2)).map tcpServerFraming.item) := by
+    rw [hitems]; exact henc
+  have H0 := process_serves_then_poison .tcp tcpServerFraming svc
+    (reqs.map fun p => tcpFrame p.1 (encodeRequestPdu p.2)) bad x kk P t feeds extra
+  have H := H0 hv hne hw hf hreads hfeed hdata henc'
+  rw [hitems] at H
+  exact H
+
+/-- **an RTU connection (RTU-over-TCP, serial) that carries an undecodable request** -/
+theorem connection_malformed_rtu (svc : Service) (reqs : List (UInt8 × Request)) (bad x : Bytes)
+    (kk : ErrKind) (P : Poison (serverDecoder .rtu) bad kk)
+    (t : Transport) (feeds extra : List ReadEv)
+    (hs : ∀ p ∈ reqs, requestPduSizeRaw p.2 ≤ 253) (hc : ∀ p ∈ reqs, ∀ fc d, p.2 ≠ .custom fc d)
+    (hw : t.writes = []) (hf : t.flushes = [])
+    (hreads : t.reads = feeds ++ extra) (hfeed : ∀ e ∈ feeds, e.isFeed = true)
+    (hdata : dataOf feeds = (reqs.map fun p => rtuFrame p.1 (encodeRequestPdu p.2)).flatten ++ (bad ++ x))
+    (henc : Encodable .rtu svc 0 (reqs.map fun p => ({ tid := 0, unit := p.1 }, p.2))) :
+    (process .rtu svc t).2.1
+        = expectedTrace .rtu svc 0 (reqs.map fun p => ({ tid := 0, unit := p.1 }, p.2))
+    ∧ (process .rtu svc t).1 = .failed kk := by
+  have hitems : (reqs.map fun p => rtuFrame p.1 (encodeRequestPdu p.2)).map rtuServerFraming.item
+      = reqs.map fun p => ({ tid := 0, unit := p.1 }, p.2) := by
+    rw [List.map_map]
+    apply List.map_congr_left
+    intro p hp
+    have h3 := server_decodes_request_rtu {} p.1 p.2 [] (hs p hp) (hc p hp)
+    simp only [List.append_nil] at h3
+    simp [rtuServerFraming, Framing.ofStrict, h3]
+  have hv : ∀ y ∈ (reqs.map fun p => rtuFrame p.1 (encodeRequestPdu p.2)), rtuServerFraming.Valid y := by
+    intro y hy
+    obtain ⟨p, hp, rfl⟩ := List.mem_map.mp hy
+    exact ⟨p.1, p.2, hs p hp, hc p hp, rfl⟩
+  have hne : ∀ y ∈ (reqs.map fun p => rtuFrame p.1 (encodeRequestPdu p.2)), y ≠ [] := by
+    intro y hy
+    obtain ⟨p, _, rfl⟩ := List.mem_map.mp hy
+    simp [rtuFrame]
+  have henc' : Encodable .rtu svc 0 ((reqs.map fun p => rtuFrame p.1 (encodeRequestPdu p.2)).map rtuServerFraming.item) := by
+    rw [hitems]; exact henc
+  have H0 := process_serves_then_poison .rtu rtuServerFraming svc
+    (reqs.map fun p => rtuFrame p.1 (encodeRequestPdu p.2)) bad x kk P t feeds extra
+  have H := H0 hv hne hw hf hreads hfeed hdata henc'
+  rw [hitems] at H
+  exact H
+
+-- non-vacuity: each class of malformed input exists; a served request followed by one of them
+example : decodeRequest [5, 0, 0, 0x12, 0x34] = .err .invalidData := by decide +kernel
+example : ∀ x, requestPduLen (rtuFrame 1 [5, 0, 0, 0x12, 0x34] ++ x) = .ok (some 5) := by
+  intro x; simp [requestPduLen, rtuFrame]
+example : decodeRequest [3, 0] = .err .unexpectedEof := by decide +kernel
+example : (process .tcp (fun _ _ _ => .decline)
+    { reads := [.data [0, 1, 0, 0, 0, 2, 7, 0x11, 0, 2, 0, 0], .data [0, 3, 1, 3, 0], .data [9, 9], .eof] }).1
+    = .failed .unexpectedEof := by decide +kernel
 
 -- non-vacuity
 example : serve [.accepted 0, .rejected, .accepted 1, .setupFailed (.injected 3), .accepted 2]
